@@ -102,6 +102,22 @@ fn gen_delivery(t: &mut Tape) -> Delivery {
     }
 }
 
+/// scale family: (encoding, bytes, delivery)
+fn gen_long_case(t: &mut Tape) -> (Enc, Vec<u8>, Delivery) {
+    let text = if t.chance(15) { crate::gen::doc::gen_many_lines_doc(t) } else { crate::gen::doc::gen_long_line_doc(t) };
+    let enc = ENCS[t.below(4)];
+    let bytes = encode_text(&text, enc);
+    let big = |t: &mut Tape| *t.pick(&[4095usize, 4096, 4097, 8191, 8192, 8193, 16384, 65535, 65536, 65537, 100_000]);
+    let d = match t.below(5) {
+        0 => Delivery::Native(Schedule::fixed(big(t))),
+        1 => Delivery::Buffered(big(t), Schedule::fixed(1 + t.below(9000))),
+        2 => Delivery::Native(Schedule::fixed(1 + t.below(64))),
+        3 => Delivery::FromPath,
+        _ => gen_delivery(t),
+    };
+    (enc, bytes, d)
+}
+
 fn sources(quick: bool) -> Vec<(String, String)> {
     let mut v = vec![];
     for b in bundled() {
@@ -268,6 +284,28 @@ pub fn run(ctx: &mut Ctx) {
             }
         }
     });
+    // scale: documents with one very long line (4 K .. 200 K characters) or very many lines, delivered in small,
+    // buffer-sized (4 KiB, 8 KiB, 64 KiB +-1) and random chunks
+    let cases = ctx.tier.pick(160u64, 1_600u64);
+    ctx.pbt("c08-long-lines", cases, 300, |t, st| {
+        let (enc, bytes, d) = gen_long_case(t);
+        st.eval();
+        st.label("very long line / very many lines");
+        let reference = rosu_map::from_bytes::<Beatmap>(&bytes).map_err(|e| Fail::new(format!("from_bytes error {e}"), "osu", bytes.clone()))?;
+        match check_one(&bytes, &reference, &d) {
+            Ok(got) => {
+                if got.chunks >= 2 {
+                    st.nontrivial(hash64(&(&bytes, format!("{d:?}"))));
+                }
+                Ok(())
+            }
+            Err(m) => {
+                let m: String = m.chars().take(1500).collect();
+                let hex: String = t.all_bytes().iter().map(|b| format!("{b:02x}")).collect();
+                Err(Fail::json(m.clone(), &json!({"family": "long-lines", "encoding": enc.name(), "delivery": describe(&d), "message": m, "long_tape_hex": hex})))
+            }
+        }
+    });
     let _ = std::fs::remove_dir_all(crate::engine::verif_dir().join("harness/target/tmp").join(format!("c08-{}", std::process::id())));
 }
 
@@ -309,6 +347,12 @@ pub fn replay(_ctx: &mut Ctx, ext: &str, bytes: &[u8]) -> Result<Option<String>,
     }
     if ext == "json" {
         let v: serde_json::Value = serde_json::from_slice(bytes).map_err(|e| Fail::new(format!("bad JSON {e}"), "json", bytes.to_vec()))?;
+        if let Some(hex) = v["long_tape_hex"].as_str() {
+            let tape: Vec<u8> = (0..hex.len() / 2).filter_map(|i| u8::from_str_radix(&hex[2 * i..2 * i + 2], 16).ok()).collect();
+            let (_enc, data, d) = gen_long_case(&mut Tape::new(&tape));
+            let reference = rosu_map::from_bytes::<Beatmap>(&data).map_err(|e| Fail::new(format!("from_bytes error {e}"), "osu", data.clone()))?;
+            return check_one(&data, &reference, &d).map(|_| None).map_err(|m| Fail::new(m.chars().take(1500).collect::<String>(), "json", bytes.to_vec()));
+        }
         if let Some(hex) = v["replay_tape_hex"].as_str() {
             let tape: Vec<u8> = (0..hex.len() / 2).filter_map(|i| u8::from_str_radix(&hex[2 * i..2 * i + 2], 16).ok()).collect();
             return replay_tape(&tape);
